@@ -95,17 +95,36 @@ def digest(msg, L, variant, compress_fn=None, h0=None, t_offset=None):
     w, rounds, rot, bs, dn, marker = PARAMS[variant]
     h = [T.const(x, w) for x in IV[variant]] if h0 is None else list(h0)
     base = T.const(0, 2 * w) if t_offset is None else t_offset
-    bitlen = T.add(base, T.const(8 * L, 2 * w))
-    for blk, bits in pad_blocks(msg, L, variant, bitlen):
+    # the counter t = t0 + 2^w * t1 is kept as two w-bit words; adding the bits of a block carries from t0 into t1
+    t0, t1 = T.extract(base, 0, w), T.extract(base, w, w)
+
+    def advance(t0, t1, nbits):
+        n0 = T.add(t0, T.const(nbits, w))
+        carry = T.ult(n0, t0)
+        return n0, T.add(t1, T.zext(carry, w))
+    done = 0
+    full_blocks = L // bs
+    blocks = pad_blocks(msg, L, variant, T.const(0, 2 * w))
+    # the length field of the padding holds the final counter value
+    lt0, lt1 = t0, t1
+    for i in range(full_blocks):
+        lt0, lt1 = advance(lt0, lt1, 8 * bs)
+    rem = L - full_blocks * bs
+    if rem:
+        lt0, lt1 = advance(lt0, lt1, 8 * rem)
+    bitlen = T.concat([lt0, lt1])
+    blocks = pad_blocks(msg, L, variant, bitlen)
+    for blk, bits in blocks:
         if bits:
-            t = T.add(base, T.const(bits, 2 * w))
+            t0, t1 = advance(t0, t1, bits - done)
+            done = bits
+            c0, c1 = t0, t1
         else:
-            t = T.const(0, 2 * w)
-        t0, t1 = T.extract(t, 0, w), T.extract(t, w, w)
+            c0, c1 = T.const(0, w), T.const(0, w)
         if compress_fn is None:
-            h = compress(h, be_words(blk, w), t0, t1, w)
+            h = compress(h, be_words(blk, w), c0, c1, w)
         else:
-            h = compress_fn(h, blk, t0, t1)
+            h = compress_fn(h, blk, c0, c1)
     out = T.concat([T.bswap(x) for x in h])
     return T.extract(out, 0, 8 * dn)
 
